@@ -1,5 +1,6 @@
 import GsModel.Pair.Encode
 import GsModel.Props.C03
+import GsModel.Params.Decimal
 /-
   C04 — Generated client and server interoperate losslessly.   (proof on the simple-parameter fragment, PARTIAL)
 
@@ -8,9 +9,10 @@ import GsModel.Props.C03
     satisfies the spec and is representable in the declared collectionFormat, the server binds exactly the value the client
     was given.  Representable = each item, as sent, is not empty, carries no surrounding blanks and does not contain the
     separator (`cleanFor`); the hypothesis is necessary: `unrepresentable_differs`.
-  * the text of a value converts back to the value: by computation for strings and booleans (`string_codec`, `bool_codec`);
-    for integers it is the hypothesis `hconv` of the theorems (decimal formatting / parsing round trip of the two swag
-    functions), checked on the boundary values by `int_codec_examples` and on every integer sent by the correspondence run.
+  * the text of a value converts back to the value (`hconv` of the round-trip theorems): `string_codec`, `bool_codec`, and
+    `int_codec` — for EVERY integer in the range of the declared width, parsing the decimal text gives the integer back
+    (Params/Decimal.lean: digits of Nat.toDigits fold back to the number); `int_text_scalar_ok` is the scalar round trip
+    with no codec hypothesis left.
   * `dispatch_*` — the decision logic of the client's response switch, stated outright.
   Tie: generated client and generated server of one spec run in one process (httptest); the parameter struct given to the
   client is compared with the one the handler receives, the responder returned by the handler with the result / error the
@@ -133,6 +135,24 @@ theorem string_codec (x : String) : convert .str (fmtVal (.s x)) = some (.s x) :
 
 theorem bool_codec (b : Bool) : convert .bool (fmtVal (.b b)) = some (.b b) := by
   cases b <;> decide
+
+/-- integers: strconv-style decimal text converts back to the integer, for EVERY integer in the range of the declared width -/
+theorem int_codec (bits : Nat) (n : Int) (hlo : -(2 : Int) ^ (bits - 1) ≤ n) (hhi : n < (2 : Int) ^ (bits - 1)) :
+    convert (.int bits) (fmtVal (.i n)) = some (.i n) := by
+  have h := parseInt_toString bits n hlo hhi
+  simp only [convert, fmtVal, h, Option.map_some]
+
+/-- the text of an integer is never empty, blank-padded or split by a separator -/
+theorem int_text_scalar_ok (bits : Nat) (n : Int) (hlo : -(2 : Int) ^ (bits - 1) ≤ n) (hhi : n < (2 : Int) ^ (bits - 1))
+    (p : PSpec) (hp : p.isArray = false) (ht : p.ty = .int bits) (hvalid : validOne p.v (.i n) = true) :
+    bindGenAny p (encodeGen p (.one (.i n))) = .one (.i n) := by
+  apply roundtrip_scalar p hp (.i n)
+  · intro h
+    have := int_codec bits n hlo hhi
+    rw [h] at this
+    simp [convert, parseInt, digitsVal] at this
+  · rw [ht]; exact int_codec bits n hlo hhi
+  · exact hvalid
 
 theorem int_codec_examples :
     convert (.int 64) (fmtVal (.i 0)) = some (.i 0) ∧ convert (.int 64) (fmtVal (.i (-1))) = some (.i (-1)) ∧
